@@ -2,7 +2,8 @@
 (* C11: aggregates fold exactly the numeric cells of their arguments.               *)
 (* A block of cells (Cols columns, row-major index) holds content kinds:             *)
 (*   "I" integer  "D" decimal  "N" negative  "X" text  "S" numeric-looking text      *)
-(*   "T" TRUE  "F" FALSE  "B" blank  "E" empty text                                   *)
+(*   "T" TRUE  "F" FALSE  "B" blank  "E" empty text  "H" a text that starts with #   *)
+(*   (an order number like #41: a text, not an error value)                           *)
 (* Numeric values are position dependent (so that every cell is distinguishable) and *)
 (* kept in quarter units (value * 4) to stay in integer arithmetic.                   *)
 (* An argument is an area <<r1, c1, r2, c2>> of the block, or [far |-> q4s] (numeric   *)
